@@ -218,6 +218,7 @@ type Exec struct {
 	MaxDepth  int
 	MaxStates int
 	Unroll    int // loop iterations explored exactly before the loop head is widened
+	Widen     bool // generalise everything a loop changed in one step (faster, coarser) instead of joining arrivals
 	Hooks     Hooks
 	Debug     func(pos, key string)
 	KeepSyms  map[string]bool // symbols whose facts are never pruned (root parameters)
@@ -1040,7 +1041,9 @@ func (x *Exec) enterBlock(s *State, pred, b *ssa.BasicBlock, first bool) {
 			if snap := f.Loops[b.Index]; snap != nil {
 				snap.iters++
 				if snap.iters > x.Unroll {
-					x.widen(s, f, b, snap, phis)
+					if x.Widen {
+						x.widen(s, f, b, snap, phis)
+					}
 					f.PC = 0
 					hk := x.headKey(s)
 					if prev := x.heads[hk]; prev == nil {
